@@ -1,21 +1,34 @@
 //! development probe (not part of any check)
+//!   probe dsets <dim> <n>          time / count the harness's own D-set enumeration
+//!   probe invariant "<symbol>"     print the orbifold invariant string of a 3D symbol
+use dsv::gen::dsets::*;
 use dsv::model::DS;
 use rust_dsymbols::delaney3d::orbifold_graph;
 use rust_dsymbols::dsets::DSet;
-use rust_dsymbols::fundamental_group::fundamental_group;
 use rust_dsymbols::fpgroups::invariants::abelian_invariants;
+use rust_dsymbols::fundamental_group::fundamental_group;
 fn main() {
     let args: Vec<String> = std::env::args().collect();
-    let ds = DS::parse(&args[1]).unwrap().to_partial();
-    let (labels, edges) = orbifold_graph(&ds);
-    let fg = fundamental_group(&ds);
-    let inv = abelian_invariants(fg.nr_generators(), &fg.relators);
-    let mut parts = vec![labels.len().to_string()];
-    parts.extend(labels);
-    parts.push(if ds.is_oriented() { "2".into() } else if ds.is_weakly_oriented() { "1".into() } else { "0".to_string() });
-    parts.push(edges.len().to_string());
-    parts.push(inv.len().to_string());
-    parts.extend(inv.iter().map(|n| n.to_string()));
-    parts.push("".to_string());
-    println!("{}", parts.join("/"));
+    match args[1].as_str() {
+        "dsets" => {
+            let (dim, n): (usize, usize) = (args[2].parse().unwrap(), args[3].parse().unwrap());
+            let t = std::time::Instant::now();
+            let v = dsets_of_size(dim, n);
+            println!("dim {} n {}: {} classes in {:?}", dim, n, v.len(), t.elapsed());
+        }
+        _ => {
+            let ds = DS::parse(&args[2]).unwrap().to_partial();
+            let (labels, edges) = orbifold_graph(&ds);
+            let fg = fundamental_group(&ds);
+            let inv = abelian_invariants(fg.nr_generators(), &fg.relators);
+            let mut parts = vec![labels.len().to_string()];
+            parts.extend(labels);
+            parts.push(if ds.is_oriented() { "2".into() } else if ds.is_weakly_oriented() { "1".into() } else { "0".to_string() });
+            parts.push(edges.len().to_string());
+            parts.push(inv.len().to_string());
+            parts.extend(inv.iter().map(|n| n.to_string()));
+            parts.push("".to_string());
+            println!("{}", parts.join("/"));
+        }
+    }
 }
